@@ -670,6 +670,7 @@ theorem nextStep_inv {env : Env} {t : Bool} {st : State} {tx : Tx} (ht : st.tip9
   obtain ⟨f1, f2⟩ := faucetStep_inv (env := env) (tx := tx) ht hinv
   constructor
   · unfold nextStep
+    refine NoCrash.ite (NoCrash.reject _) ?_
     refine NoCrash.bind f1 ?_
     intro st1 h1
     obtain ⟨-, -, hi1⟩ := f2 st1 h1
@@ -679,7 +680,10 @@ theorem nextStep_inv {env : Env} {t : Bool} {st : State} {tx : Tx} (ht : st.tip9
     intro minFee _
     exact NoCrash.ite (NoCrash.reject _) (NoCrash.ok _)
   · intro st' h
-    simp only [nextStep, Outcome.bind_eq_ok] at h
+    unfold nextStep at h
+    split at h
+    · cases h
+    simp only [Outcome.bind_eq_ok] at h
     obtain ⟨st1, h1, coins2, h2, minFee, -, h4⟩ := h
     obtain ⟨ht1, -, hi1⟩ := f2 st1 h1
     obtain ⟨m', hm, hi2⟩ := CInv.removeFold tx.inputs st1.coins hi1
